@@ -466,4 +466,6 @@ def obs_c02_mt(case):
 
 from .race import obs_race  # noqa: E402
 
-OBSERVERS = {"c02": obs_c02, "c02mt": obs_c02_mt, "race": obs_race}
+from .optchild import obs_opt_single  # noqa: E402
+
+OBSERVERS = {"c02": obs_c02, "c02mt": obs_c02_mt, "race": obs_race, "opt": obs_opt_single}
